@@ -189,6 +189,17 @@ def straddle_values(rng, mcl):
     out.append(bytes(rng.randrange(256) for _ in range(3000)))
     out.append(int("7" * 4000))
     out.append(-int("3" * 1234))
+    # values that are themselves valid compressed streams (a cached HTTP body, a nested cache layer): level-0 zlib streams
+    # are still compressible, so every codec flags them; ordinary streams are flagged by the identity codec
+    import bz2, gzip, lzma, zlib
+    payload = b"inner payload %d " % mcl * 40
+    out.append(zlib.compress(payload, 0))
+    out.append(zlib.compress(payload))
+    out.append(zlib.compress(zlib.compress(payload, 0), 0))
+    out.append(bz2.compress(payload))
+    out.append(lzma.compress(payload))
+    out.append(gzip.compress(payload, mtime=0))
+    out.append(zlib.compress(payload, 0).decode("latin-1"))         # the same bytes as text
     return out
 
 
